@@ -7,6 +7,17 @@ HERE = os.path.dirname(os.path.abspath(__file__))
 
 # property -> (technique, level text, level note, design ref)
 CLAIMED = {
+    'C09': ('exhaustive decision table: statically evaluated _Precedence / _PRECEDENCE_NODES / _PRECEDENCE_NODE_FIELDS and the '
+            'special-case arms of precedence_require_parens_by_type against a grammar-derived oracle (python.gram 3.12); '
+            'call-graph reachability of the tables from every expression put handler; control-dependence check of '
+            'parenthesis removal in _make_exprlike_fst',
+            'Static, exhaustive over 100+ expression / pattern slots x 30 child kinds (>3000 decisions): wherever the grammar '
+            'cannot derive the child unparenthesized in the slot, the tables must say "parenthesize". Also decides that the '
+            'tables are consulted by every expression put handler and that needed parentheses are only removed under '
+            '`not need_pars()`. Line-structure (multi-line enclosure) clauses are not decided.',
+            'Trusts the frozen grammar oracle in sa/rules/c09.py (derived by hand from CPython 3.12 Grammar/python.gram) and '
+            'FIELDS for slot completeness.',
+            'DESIGN.md §2 C09'),
     'C03': ('registry agreement / exhaustiveness of the four handler tables against FIELDS and the stdlib grammar; shape check '
             'of generated accessors; entry-point funnel + options forwarding + sibling agreement; flow-sensitive '
             'interprocedural raw-index typestate (RAW > range-checked > clean) over per-function CFGs',
@@ -37,7 +48,7 @@ NOT_APPLICABLE = {
            'conservation is value-level. Its two structural clauses are checked as R5.1 and R7.3.',
 }
 
-PLANNED = ['C01', 'C02', 'C04', 'C05', 'C06', 'C07', 'C09', 'C10', 'C11', 'C12', 'C15', 'C16', 'C17', 'C18', 'C20']
+PLANNED = ['C01', 'C02', 'C04', 'C05', 'C06', 'C07', 'C10', 'C11', 'C12', 'C15', 'C16', 'C17', 'C18', 'C20']
 
 
 def main():
